@@ -57,6 +57,17 @@ def run(c, facts, tier):
     c.ob("C09.detect", fa.key, "action() = 'an action node occurs at some depth'", r["ok"], "; ".join(r["problems"]) or "complete recursion over Precedence/Not/And/Or/List; wildcard hides only %s" % r["hidden"], witness="! -print  /  -false -o -print" if not r["ok"] else None)
     leaf_ok = r["leaf"] is not None and rx.peel(r["leaf"]["body"])["k"] == "lit" and rx.peel(r["leaf"]["body"])["v"] is True
     c.ob("C09.detect", fa.key, "Action(_) → true", leaf_ok, "Action arm: %s" % (src(r["leaf"]["body"]) if r["leaf"] else None))
+    # exp.clone() must be a faithful copy: Clone is derived on every AST type, no hand-written impl
+    ast_types = ["Expression", "Operator", "Test", "Action", "Comparison", "Size", "TimeSpec", "FileType", "PermCheck", "Permission", "FormatElement", "FormatField", "FormatSpecial", "GlobalOption", "PositionalOption"]
+    bad = []
+    for tname in ast_types:
+        d_ = facts.enums.get(tname) or facts.structs.get(tname)
+        if d_ is None:
+            continue
+        manual = [i for _, _, i in facts.impls if F.norm_ty(i["self_ty"]).split("<")[0] == tname and i["trait"] and F.norm_ty(i["trait"]).split("::")[-1] in ("Clone", "PartialEq")]
+        if "Clone" not in facts.derives(d_) or manual:
+            bad.append("%s (derives %s, manual impls %d)" % (tname, facts.derives(d_), len(manual)))
+    c.ob("C09.wrap", "ast", "cloning an expression yields an equal expression (derived Clone on every AST type)", not bad, "not derived / hand-written: %s" % bad if bad else "%d AST types derive Clone and PartialEq" % len(ast_types), nontrivial=False)
     comp = compile_fn(facts)
     expname = comp.params[0][0]
     # let target = if !exp.action() { wrap } else { exp.clone() };
